@@ -222,8 +222,10 @@ class EnvTurn:
 
 
 class Harness:
-    def __init__(self, shape_name, oa, scratch, policy, log_trace=True, start=0, memo=(), nopop=()):
+    def __init__(self, shape_name, oa, scratch, policy, log_trace=True, start=0, memo=(), nopop=(), conds=None):
         self.start = start                       # the stage the run starts from (restart)
+        # what the DoWhile condition evaluates to after iteration 0, 1, ..: "True" | "False" | "garbage"
+        self.conds = list(conds) if conds else ["False"] * SS.DW_ITERS
         self.memo_plan = set(memo)               # node names the memoization database offers outputs for
         self.nopop_plan = set(nopop)             # node names it offers outputs for that cannot be copied
         self.memo = set()                        # references (filled in build)
@@ -263,9 +265,17 @@ class Harness:
     def snapshot(self):
         st = {}
         ctrl = self.controller
+        graph_nodes = list(self.exp.graph.nodes)
+        present = set(graph_nodes)
         for i, n in enumerate(self.nodes):
             r = self.ref(n)
-            comp = self.comps[r]
+            if r not in present:
+                # the slot of a DoWhile iteration that was not instantiated (yet)
+                st[r] = dict(cs="idle", exitR="none", nrun=0, nrestart=0, nresub=0, fin=False, killreq=False, notified=False)
+                continue
+            comp = self.comps.get(r)
+            if comp is None:
+                comp = self.register_new_component(r)
             eng = self.engines.get(r)
             s = STATE_NAME[comp.state]
             if eng is None:
@@ -278,12 +288,21 @@ class Harness:
             st[r] = dict(cs=s, exitR=eng._exitReason or "none", nrun=eng.nrun, nrestart=eng.restarts,
                          nresub=eng._resubmissionAttempts, fin=bool(comp.finishCalled),
                          killreq=bool(eng.kill_requested), notified=bool(eng.producers_finished))
-        return dict(comps=st, done=sorted(ctrl.comp_done), staged=sorted(c.specification.reference for c in ctrl.comp_staged_in),
+        refs = self.refs
+        # the order in which _schedule scans the graph: the nodes that exist, then (irrelevant) the slots that do not
+        order = [r for r in graph_nodes if r in st] + [r for r in refs if r not in present]
+        wg = self.exp.experimentGraph
+        dws = wg._documents.get("DoWhile", {}) if hasattr(wg, "_documents") else {}
+        curiter = max([d["state"]["currentIteration"] for d in dws.values()] or [0])
+        phs = [p for p, d in wg._placeholders.items() if d.get("stage", 0) >= self.start]
+        return dict(comps=st, done=sorted(x for x in ctrl.comp_done if x in st),
+                    staged=sorted(c.specification.reference for c in ctrl.comp_staged_in),
                     stop=bool(ctrl.stop_executing), stage=self.stage, phase=self.phase, verdict=list(self.verdicts),
                     killed=self.killed, memoized=sorted(self.memoized), sleepReq=bool(ctrl._start_sleeping),
                     asleep=bool(ctrl._scheduler_sleeps),
-                    postponed=sorted(c.specification.reference for _s, c in ctrl._component_finished_while_sleeping),
-                    nsleep=self.nsleep)
+                    postponed=[c.specification.reference for _s, c in ctrl._component_finished_while_sleeping],
+                    nsleep=self.nsleep, order=order, live=[r for r in refs if r in present], curiter=curiter,
+                    phdone=bool(phs) and all(p in ctrl.comp_done for p in phs))
 
     def event(self, name, arg=None, extra=None):
         self.calls.append((name, arg))
@@ -311,17 +330,18 @@ class Harness:
         inst._set(engine_mod.Engine, "engineForComponentSpecification", staticmethod(lambda job: engine_for(job)))
         fake_time = types.SimpleNamespace(sleep=lambda s: None, time=lambda: self.world.now)
         inst._set(control, "time", fake_time)
-        self.exp = realenv.experiment_from_flowir(SS.flowir(self.base), self.scratch)
+        self.refs = [self.ref(n) for n in self.nodes]
+        if SS.is_dowhile(self.base):
+            self.exp = self.dowhile_experiment()
+        else:
+            self.exp = realenv.experiment_from_flowir(SS.flowir(self.base), self.scratch)
         import networkx
         graph = self.exp.graph
         real_nodes = sorted(graph.nodes)
-        if real_nodes != sorted(self.ref(n) for n in self.nodes):
-            raise RuntimeError("shape expansion drift: %s vs %s" % (real_nodes, sorted(self.ref(n) for n in self.nodes)))
-        for n in self.nodes:
-            preds = sorted(graph.predecessors(self.ref(n)))
-            mine = sorted(self.ref(next(x for x in self.nodes if x["node"] == p)) for p in n["prods"])
-            if preds != mine:
-                raise RuntimeError("shape edge drift for %s: %s vs %s" % (n["node"], preds, mine))
+        initially = sorted(self.ref(n) for n in self.nodes if not n.get("loop") or n["iter"] == 0)
+        if real_nodes != initially:
+            raise RuntimeError("shape expansion drift: %s vs %s" % (real_nodes, initially))
+        self.check_edges(real_nodes)
         wg = self.exp.experimentGraph
         for job_name in networkx.topological_sort(graph):
             data = graph.nodes[job_name]
@@ -349,6 +369,58 @@ class Harness:
         c.comp_done = LoggedSet(self, "Done", lambda x: x)
         c.comp_staged_in = LoggedSet(self, "Staged", lambda x: x.specification.reference)
         self._wrap_controller(c)
+
+    def check_edges(self, refs):
+        """The edges of the real graph into the given nodes are the ones the shape expansion predicts (restricted to the
+        nodes that exist)."""
+        graph = self.exp.graph
+        byname = {n["node"]: n for n in self.nodes}
+        present = set(graph.nodes)
+        for r in refs:
+            n = self.nodes[self.refs.index(r)]
+            preds = sorted(graph.predecessors(r))
+            mine = sorted(x for x in (self.ref(byname[p]) for p in n["prods"]) if x in present)
+            if preds != mine:
+                raise RuntimeError("shape edge drift for %s: %s vs %s" % (n["node"], preds, mine))
+
+    def dowhile_experiment(self):
+        """A real package with a DoWhile document (conf/flowir_package.yaml + conf/dowhile.yaml) and an instance of it, as
+        tests/test_dowhile.py builds them."""
+        import uuid
+        import yaml
+        import experiment.model.storage
+        import experiment.model.data
+        main, doc = SS.dowhile_package(self.base)
+        pk = os.path.join(self.scratch, "%s.package" % uuid.uuid4().hex[:10])
+        os.makedirs(os.path.join(pk, "conf"))
+        with open(os.path.join(pk, "conf", "flowir_package.yaml"), "w") as f:
+            f.write(yaml.dump(main, sort_keys=False, Dumper=yaml.SafeDumper))
+        with open(os.path.join(pk, "conf", "dowhile.yaml"), "w") as f:
+            f.write(yaml.dump(doc, sort_keys=False, Dumper=yaml.SafeDumper))
+        pkg = experiment.model.storage.ExperimentPackage.packageFromLocation(pk)
+        inst = experiment.model.storage.ExperimentInstanceDirectory.newInstanceDirectory(self.scratch, package=pkg)
+        exp = experiment.model.data.Experiment(inst, is_instance=True)
+        exp.validateExperiment(checkExecutables=False)
+        self._package_dir = pk
+        return exp
+
+    def register_new_component(self, ref):
+        """A component the controller instantiated at run time (next iteration of a DoWhile)."""
+        comp = self.controller.get_compstate(ref)
+        self.comps[ref] = comp
+        self._wrap_component(comp)
+        self.check_edges([ref] + [r for r in self.refs if ref in (self.ref(next(x for x in self.nodes if x["node"] == p))
+                                                                   for p in self.nodes[self.refs.index(r)]["prods"])
+                                  and r in self.exp.graph.nodes])
+        return comp
+
+    def write_condition(self, ref):
+        """The task of the component that produces the DoWhile condition succeeded: it wrote the condition."""
+        n = self.nodes[self.refs.index(ref)]
+        ans = self.conds[n["iter"]]
+        comp = self.comps[ref]
+        with open(os.path.join(comp.specification.directory, "flag"), "w") as f:
+            f.write({"True": "True\n", "False": "False\n"}.get(ans, "maybe\n"))
 
     def _wrap_component(self, comp):
         h = self
@@ -405,7 +477,7 @@ class Harness:
 
     # ---- environment ----
     def outcome(self, ref, k):
-        i = next(i for i, n in enumerate(self.nodes) if self.ref(n) == ref)
+        i = self.refs.index(ref)
         seq = SS.OUTSEQS[self.oa[i] - 1]
         return seq[k - 1] if k <= len(seq) else "Success"
 
@@ -430,7 +502,10 @@ class Harness:
         if name == "KilledExit":
             e.env_exit("Killed")
         else:
-            e.env_exit(self.outcome(ref, e.nrun))
+            r = self.outcome(ref, e.nrun)
+            if r == "Success" and self.nodes[self.refs.index(ref)].get("cond"):
+                self.write_condition(ref)
+            e.env_exit(r)
         self.step(name, ref)
 
     def preempt(self, where, ref):
@@ -531,8 +606,8 @@ class Harness:
                 idle = 0
                 continue
             snap = self.snapshot()
-            if all(v["cs"] in ("finished", "failed", "shutdown") for v in snap["comps"].values()) and \
-                    len(snap["done"]) == len(self.nodes):
+            if all(snap["comps"][r]["cs"] in ("finished", "failed", "shutdown") for r in snap["live"]) and \
+                    set(snap["done"]) >= set(snap["live"]):
                 return True
             if not self.world.advance_to_next_timer():
                 return False
@@ -630,12 +705,12 @@ class RandomPolicy:
         return self.rnd.choices(items, weights=ws, k=1)[0]
 
 
-def run_case(shape_name, oa, scratch, policy, log_trace=True, start=0, memo=(), nopop=(), catch_crash=False):
+def run_case(shape_name, oa, scratch, policy, log_trace=True, start=0, memo=(), nopop=(), catch_crash=False, conds=None):
     """Runs one (shape, outcomes[, starting stage, memoization answers]) under one schedule policy.  Returns the harness
     (trace, final snapshot, flags).  catch_crash: an exception escaping the REAL stage loop (other than the verdict
     exceptions) is recorded in h.crash instead of being raised."""
     base_threads = set(threading.enumerate())
-    h = Harness(shape_name, oa, scratch, policy, log_trace, start=start, memo=memo, nopop=nopop)
+    h = Harness(shape_name, oa, scratch, policy, log_trace, start=start, memo=memo, nopop=nopop, conds=conds)
     with W.Installed(h.world) as inst:
         h.build(inst)
         h.step("Init")
@@ -656,40 +731,11 @@ def run_case(shape_name, oa, scratch, policy, log_trace=True, start=0, memo=(), 
         h.final = h.snapshot()
     h.threads = W.assert_no_threads(base_threads)
     shutil.rmtree(h.exp.instanceDirectory.location, ignore_errors=True)
-    pkg = getattr(h.exp.instanceDirectory, "packageLocation", None)
+    if getattr(h, "_package_dir", None):
+        shutil.rmtree(h._package_dir, ignore_errors=True)
     return h
 
 
 # ---------------------------------------------------------------------------------------------------------------
-# trace -> TLA+
-
-def _tla(v):
-    if isinstance(v, bool):
-        return "TRUE" if v else "FALSE"
-    if isinstance(v, int):
-        return str(v)
-    if isinstance(v, str):
-        return '"%s"' % v
-    raise TypeError(v)
-
-
-def trace_to_tla(h, sid):
-    """One record of the Traces constant of SchedulerTrace.tla."""
-    refs = [h.ref(n) for n in h.nodes]
-    idx = {r: i + 1 for i, r in enumerate(refs)}
-    order = [idx[r] for r in h.exp_node_order]
-    steps = []
-    for e in h.trace:
-        if e["ev"] == "Init":
-            continue
-        st = e["st"]
-        f = lambda key: "<<" + ", ".join(_tla(st["comps"][r][key]) for r in refs) + ">>"
-        g = lambda key: "{" + ", ".join(str(idx[r]) for r in st[key]) + "}"
-        steps.append("<<%s, %d, %s, %s, %s, %s, %s, %s, %s, %s, %s, %s, %s, %d, %s, <<%s>>, %s, %s, %s, %s, %s, %d>>" % (
-                         _tla(e["ev"]), idx.get(e["arg"], 0), f("cs"), f("exitR"), f("nrun"), f("nrestart"), f("nresub"), f("fin"),
-                         f("killreq"), f("notified"), g("done"), g("staged"), _tla(st["stop"]), st["stage"], _tla(st["phase"]),
-                         ", ".join(_tla(v) for v in st["verdict"]),
-                         _tla(st["killed"]), g("memoized"), _tla(st["sleepReq"]), _tla(st["asleep"]), g("postponed"), st["nsleep"]))
-    return "[shape |-> %d, outs |-> <<%s>>, scan |-> <<%s>>, start |-> %d, memo |-> {%s}, steps |-> <<\n    %s>>]" % (
-        sid, ", ".join(map(str, h.oa)), ", ".join(map(str, order)), h.start, ", ".join(str(idx[r]) for r in sorted(h.memo)),
-        ",\n    ".join(steps))
+# trace -> TLA+ lives in harness/sched_trace.py (no import of the runtime needed to render a recorded run)
+from .sched_trace import trace_to_tla, RunRecord, to_record      # noqa: E402,F401
